@@ -25,6 +25,7 @@ func c04Main(args []string) error {
 	txs := c.fs.Int("txs", 12, "transactions per history")
 	opsPerTx := c.fs.Int("ops", 12, "max ops per transaction")
 	dir := c.fs.String("dir", "", "scratch dir")
+	readersAlways := c.fs.Bool("readers", false, "every history holds read transactions open across writer events")
 	c.fs.Parse(args)
 	w, done := openOut(c.out)
 	defer done()
@@ -52,6 +53,9 @@ func c04Main(args []string) error {
 		o := histOptions(cr, i)
 		cfg := genCfg{ps: o.ps, txs: 2 + cr.intn(*txs), opsPerTx: *opsPerTx, bigVals: cr.chance(1, 2), readers: cr.chance(1, 2),
 			reopen: cr.chance(1, 2), malformed: cr.chance(1, 2), moves: cr.chance(2, 3)}
+		if *readersAlways {
+			cfg.readers = true
+		}
 		if cfg.readers && cr.chance(3, 4) {
 			o.imm = 4 << 20 // avoid most remaps (which block on open readers) in reader histories
 		}
